@@ -15,6 +15,10 @@ import raceparse  # noqa: E402
 PKG = "internal/home"
 FILES = ["zz_verif_common_test.go", "zz_verif_c05_test.go"]
 
+# Non-test shim files overlaid into these packages: each exposes ONE step of a
+# background worker's own loop body to the harness (no behaviour is changed).
+SHIMS = ["internal/filtering", "internal/stats", "internal/querylog"]
+
 # Spec writer (admin op or background worker) -> harness family that executes it.
 FAMILY_OF_WRITER = {
     "FilterRefresh": "FilterLists",      # /control/filtering/refresh + the periodic worker
@@ -26,6 +30,8 @@ FAMILY_OF_WRITER = {
 
 def build_binary(ctx, race=True):
     overlay = {os.path.join(vlib.REPO, PKG, f): os.path.join(vlib.HARNESS, PKG, f) for f in FILES}
+    for pkg in SHIMS:
+        overlay[os.path.join(vlib.REPO, pkg, "zz_verif_c05_shim.go")] = os.path.join(vlib.HARNESS, pkg, "zz_verif_c05_shim.go")
     ov = ctx.path("c05_overlay.json")
     json.dump({"Replace": overlay}, open(ov, "w"))
     out = ctx.path("home.c05.test")
@@ -162,6 +168,7 @@ def analyse(ctx, res, reproduced_stall=None):
         summ["admin_ops"] = famrow["admin_ops"]
         summ["classes"] = famrow["classes"]
         summ["codes"] = famrow.get("codes")
+        summ["worker_steps"] = famrow.get("worker_steps", 0)
         for pn in famrow.get("panics") or []:
             top = "?"
             for ln in pn.splitlines():
@@ -399,6 +406,8 @@ def run(ctx):
         ok_codes = sum(n for k, n in (s.get("codes") or {}).items() if k.endswith(" 200") and not k.startswith("GET "))
         if s["family"] != "Reads" and ok_codes == 0:
             raise vlib.Inconclusive("family %s executed no successful admin operation: %s" % (s["family"], s.get("codes")))
+        if s["family"] in ("FilterLists", "StatsConf", "QueryLogConf") and not s.get("worker_steps"):
+            raise vlib.Inconclusive("family %s: background worker steps did not run" % s["family"])
         if s["queries"] < 20:
             raise vlib.Inconclusive("family %s served only %d queries" % (s["family"], s["queries"]))
     if unrepro and not ctx.violations:
